@@ -6,7 +6,7 @@
    on every run).  Outcomes: DOk / DErr / DPanic (todo!, index, over-wide shift) / DUnbounded
    (a loop whose length is not bounded by the input).  The float conversions of the host are
    parameters; nothing here depends on them. *)
-From PV Require Import Base MachineInt VarintParams GenLoops Varint DataModel Schema SchemaConv Dyn WireFormat VarintFacts DynFacts.
+From PV Require Import Base MachineInt VarintParams GenLoops Varint DataModel Schema SchemaConv Dyn JsonOf WireFormat VarintFacts DynFacts DynReenc.
 Open Scope N_scope.
 
 (* decoding never panics, whatever the schema, whatever the bytes; what it hands on to the
@@ -26,6 +26,35 @@ Proof. intros i n s j Hwf. exact (dyn_ser_total i n s Hwf j). Qed.
 Theorem C18_private_reader : forall t l, is_vty t -> bytes_ok l ->
   dvar (std_reader t DynSchemaMismatch) l = dspec (spec_vread (wbits t) l).
 Proof. exact dvar_spec. Qed.
+
+(* whatever the encoder accepts, the decoder reads back, and what it returns re-encodes to the
+   same bytes: for every well-formed schema outside the classes of F7 (a nullable payload
+   directly under Option) and F8 (duplicate field names in one struct body), i.e. reenc_scope,
+   and every JSON value as serde_json can hold one (json_wf: finite floats, UTF-8 strings,
+   object keys strictly ascending, at most 65536 entries per array or object: beyond that the
+   decoder's loop is the one of F9).  The host's float conversions enter through the three
+   hypotheses (widening f32 to f64 and back is exact; results are bit patterns; integers
+   convert to finite doubles); the schema may have any depth and size *)
+Theorem C18_reencode : forall int_to_f64 narrow widen,
+  (forall b, b < 2 ^ 32 -> f32_finite b = true -> narrow (widen b) = b) ->
+  (forall b, narrow b < 2 ^ 32) ->
+  (forall z, int_to_f64 z < 2 ^ 64 /\ f64_finite (int_to_f64 z) = true) ->
+  forall s j bs, schema_wf s = true -> reenc_scope s = true -> json_wf j = true ->
+  dyn_ser int_to_f64 narrow s j = DOk bs ->
+  exists j', from_slice_dyn widen s bs = DOk j' /\ dyn_ser int_to_f64 narrow s j' = DOk bs.
+Proof. exact reencode. Qed.
+(* the hypotheses can be met and the encoder does accept such a value *)
+Example C18_reencode_nonvacuous :
+  let widen := fun b => b in let narrow := fun b => b mod 2 ^ 32 in let i2f := fun _ : Z => 0 in
+  let s := SStruct [83] DStruct [([97], SOption (SPrim PU16)); ([98], SSeq (SPrim PString));
+                                  ([99], SEnum [69] [([120], DUnit, []); ([121], DNewtype, [([], SPrim PI8)])])] in
+  let j := JObj [([97], JInt 300); ([98], JArr [JStr [104; 105]; JStr []]); ([99], JObj [([121], JInt (-3))])] in
+  (forall b, b < 2 ^ 32 -> f32_finite b = true -> narrow (widen b) = b) /\
+  schema_wf s = true /\ reenc_scope s = true /\ json_wf j = true /\
+  dyn_ser i2f narrow s j = DOk [1; 172; 2; 2; 2; 104; 105; 0; 1; 253].
+Proof.
+  cbv zeta. split; [intros b Hb _; apply N.mod_small; exact Hb|]. repeat split; vm_compute; reflexivity.
+Qed.
 
 (* what is NOT true on the unchanged tree (known findings, see known_findings.jsonl):
    memory is not bounded by the input for sequences of zero-width elements (F9) ... *)
@@ -49,3 +78,4 @@ Proof. repeat split; vm_compute; reflexivity. Qed.
 Print Assumptions C18_decode_total.
 Print Assumptions C18_encode_total.
 Print Assumptions C18_private_reader.
+Print Assumptions C18_reencode.
